@@ -581,6 +581,33 @@ def corr_cases(draw):
     return {"kind": "corr", "docs": docs, "conds": draw(st.lists(cond, min_size=1, max_size=2)), "op": draw(st.sampled_from(["and", "or"])), "not": draw(st.booleans())}
 
 
+def sweep_cases():
+    """Deterministic sweep: every tracking / state condition at every group level x preceding items plain or
+    inside nested pipelines x the item under test plain or nested."""
+    doc = {"title": "t", "logsource": {"category": "proc", "product": "win"}, "fields": ["f", "g", "zz"],
+           "detection": {"sel": {"f": "x", "g|fieldref": "f", "h": 1}, "other": {"g": 2}, "condition": "sel and not other"}}
+    st1 = {"id": "st", "type": "set_state", "key": "k", "val": "v", "rule_conditions": [{"type": "logsource", "product": "win"}]}
+    st2 = {"id": "st2", "type": "set_state", "key": "k", "val": "w"}
+    ren = {"id": "ren", "type": "field_name_prefix", "prefix": "P_", "field_name_conditions": [{"type": "include_fields", "fields": ["f", "g"]}]}
+    pres = [[st1, ren], [{"id": "nwrap", "type": "nest", "items": [st1, ren]}], [st1, {"id": "nst", "type": "nest", "items": [st2]}, ren],
+            [st1, {"id": "nwrap", "type": "nest", "items": [ren]}], [{"id": "nst", "type": "nest", "items": [st2]}, st1]]
+    applied = [{"type": "processing_item_applied", "processing_item_id": i} for i in ("ren", "st", "st2", "nwrap", "nst", "nope")]
+    states = [{"type": "processing_state", "key": "k", "val": v} for v in ("v", "w")]
+    for pre in pres:
+        for nested in (False, True):
+            for level in ("rule", "di", "fn"):
+                for c in applied + states:
+                    for neg in (False, True):
+                        item = {"rule": None, "di": None, "fn": None}
+                        item[level] = {"conds": [c], "op": "and", "not": neg}
+                        yield {"doc": doc, "pre": pre, "item": item, "test_nested": nested}
+
+
 def run(ctx) -> None:
+    i = 0
+    for c in sweep_cases():
+        i += 1
+        if i % ctx.nshards == ctx.shard:
+            ctx.do(c)
     ctx.hyp(cases(), 1500 if ctx.tier == "quick" else 20000)
     ctx.hyp(corr_cases(), 300 if ctx.tier == "quick" else 4000, salt=2)
